@@ -513,3 +513,230 @@ Section D3.
       exists evs, dst. split; [exact Dn|]. split; [exact M|]. cbn. rewrite T1, T2. auto.
   Qed.
 End D3.
+
+(* ---- the document --------------------------------------------------------------------------------------------------------------------- *)
+Definition doc_events3 (L : lang) (e : env) (keep : bool) (root : node) : list P.event :=
+  P.EvStartDoc 106 (l_id L) :: flat_map (events3 (has_attr_table e)) (norm keep [root]) ++ [P.EvEndDoc].
+
+(* the entries of the table that the header writes (with the public id string, if it goes there) *)
+Definition final_tbl (e : env) (st : est) : list ste := let '(_, t, _) := header_table e st in t.
+Definition final_idx (e : env) (st : est) : N := let '(i, _, _) := header_table e st in i.
+
+Lemma tree_ok3_frag2 L e : e_lang e = to_blang L -> forall n d, tree_ok3 L d n = true -> frag2_node e n = true.
+Proof.
+  intros HE. induction n as [tag attrs ch IH|c|ch IH| |lid roots IH] using node_ind'; intros d H; cbn [tree_ok3] in H; try discriminate; [|reflexivity].
+  apply andb_true_iff in H as [H Hch]. apply andb_true_iff in H as [H _]. apply andb_true_iff in H as [_ Htag].
+  cbn [frag2_node]. apply andb_true_iff. split.
+  - destruct tag as [p t o nm|nm].
+    + repeat (apply andb_true_iff in Htag; destruct Htag as [Htag ?]).
+      repeat (apply andb_true_iff; split); assumption.
+    + apply andb_true_iff in Htag as [_ Hun]. unfold unknown_tag in Hun. unfold lit_unknown. now rewrite HE.
+  - clear -IH Hch. induction IH as [|x r Hx _ IHr]; [reflexivity|]. cbn [forallb] in *.
+    apply andb_true_iff in Hch as [H1 H2]. now rewrite (Hx _ H1), IHr.
+Qed.
+
+Theorem abs_doc3_denotes TBL L o tag attrs ch st' root :
+  let e := enc_env (to_blang L) o in
+  plain_env e = true -> vals_ok L = true -> l_exts L = None ->
+  tree_ok3 L 0 (NElt tag attrs ch) = true ->
+  abs_node e None (NElt tag attrs ch) (start_state e [NElt tag attrs ch]) = Some ([root], st') ->
+  (forall x, In x (final_tbl e st') -> S.str_at (doc_strtbl e st') (s_off x) = Some (s_str x)) ->
+  (forall x, In x (final_tbl e st') -> S.u32_okb (s_off x) = true) ->
+  (forall x, In x (final_tbl e st') -> ref_str (final_tbl e st') (s_off x) = s_str x) ->
+  (forall x, In x (strtbl st') -> In x (final_tbl e st')) ->
+  o_version o < 4 -> header_public_id e < 4294967296 -> header_public_id e <> 0 ->
+  S.bytes_okb (doc_strtbl e st') = true -> Parser.blen (doc_strtbl e st') < 4294967296 ->
+  final_idx e st' < 4294967296 ->
+  exists evs, S.denote_with TBL (Some L) (abs_doc2 e st' root) = Some evs /\
+              merge_chars evs = merge_chars (doc_events3 L e (o_keep_ws o) (NElt tag attrs ch)).
+Proof.
+  cbv zeta. intros HP HV HX HT AN HRES HU32 HREF HSUB Hv Hp1 Hp0 Hb1 Hb2 Hidx. set (e := enc_env (to_blang L) o) in *.
+  assert (HE : e_lang e = to_blang L) by reflexivity.
+  assert (Ho : e_ignore_empty e = e_remove_blanks e) by reflexivity.
+  assert (Hk : negb (e_remove_blanks e) = o_keep_ws o) by (subst e; unfold enc_env, make_env; cbn; now rewrite negb_involutive).
+  assert (Hst0 : tagcp (start_state e [NElt tag attrs ch]) = 0 /\ attrcp (start_state e [NElt tag attrs ch]) = 0).
+  { unfold start_state. destruct (e_use_strtbl e); [destruct (strtbl_initialize _ _)|]; cbn; auto. }
+  destruct Hst0 as (Z2 & Z3).
+  destruct (all_node_den3 L e HE HP HV HX Ho (final_tbl e st') (doc_strtbl e st') HRES HU32 HREF (NElt tag attrs ch) None 0 None _ [root] st'
+                          (S.mk_dstate 0 0 None) HT HSUB (eq_sym Z2) (eq_sym Z3) AN) as (evs & dst' & DN & MG & _).
+  unfold S.denote_with.
+  assert (F : S.wd_ver (abs_doc2 e st' root) = u8 (e_version e) /\ S.wd_strtbl (abs_doc2 e st' root) = doc_strtbl e st' /\
+              S.wd_charset (abs_doc2 e st' root) = (if e_version e =? 0 then None else Some 106) /\
+              S.wd_root (abs_doc2 e st' root) = root /\ S.wd_pis_before (abs_doc2 e st' root) = [] /\ S.wd_pis_after (abs_doc2 e st' root) = [] /\
+              S.wd_pub (abs_doc2 e st' root) = (match header_pid e with Some _ => S.PubIdx (final_idx e st') | None => S.PubNum (header_public_id e) end)).
+  { unfold abs_doc2, final_idx. destruct (header_table e st') as [[i t] tl]. cbn. auto 10. }
+  destruct F as (F1 & F2 & F3 & F4 & F5 & F6 & F7). rewrite F1, F2, F7.
+  replace (e_version e) with (o_version o) in * by reflexivity.
+  assert (Hu8 : u8 (o_version o) = o_version o) by (unfold u8; apply N.mod_small; lia). rewrite Hu8.
+  replace (o_version o <? 4) with true by (symmetry; now apply N.ltb_lt).
+  rewrite Hb1. replace (S.u32_okb (Parser.blen (doc_strtbl e st'))) with true by (symmetry; unfold S.u32_okb; now apply N.ltb_lt).
+  assert (Hpub : match (match header_pid e with Some _ => S.PubIdx (final_idx e st') | None => S.PubNum (header_public_id e) end) with
+                 | S.PubNum n => S.u32_okb n && negb (n =? 0) | S.PubIdx i => S.u32_okb i end = true).
+  { destruct (header_pid e); [unfold S.u32_okb; now apply N.ltb_lt|]. unfold S.u32_okb. apply andb_true_iff. split; [now apply N.ltb_lt|].
+    apply negb_true_iff. now apply N.eqb_neq. }
+  rewrite Hpub. cbn [andb].
+  assert (Hcs : S.charset_of (abs_doc2 e st' root) = Some 106).
+  { unfold S.charset_of. rewrite F1, F3, Hu8. destruct (o_version o) as [|v] eqn:V; reflexivity. }
+  rewrite Hcs, F4, F5, F6.
+  cbn [abs_node] in AN.
+  destruct (abs_tag e _ tag _ _) as [[[sw wtag] st2]|]; [|discriminate].
+  destruct (if has_attr_table e then abs_attrs e st2 attrs else Some ([], st2)) as [[ws st3]|]; [|discriminate].
+  destruct (abs_seq (abs_node e) (Some tag) ch st3) as [[its st4]|]; [|discriminate]. injection AN as <- <-.
+  cbn [S.den_pis]. cbn [D1.den_items] in DN.
+  destruct (S.den_item _ 0 None (S.WItemElt sw wtag ws (nonempty ch) its) _) as [[e2 st2']|]; [|discriminate].
+  injection DN as DN _. rewrite app_nil_r in DN. subst e2.
+  eexists. split; [reflexivity|].
+  unfold doc_events3, norm. cbn [flat_map app]. rewrite !app_nil_r. cbn [merge_chars]. f_equal.
+  apply merge_app_congr; [|reflexivity]. rewrite MG, Hk. cbn [flat_map]. now rewrite ?app_nil_r.
+Qed.
+
+(* ---- the facts about the table that is written -------------------------------------------------------------------------------------- *)
+Lemma entry_size T x : In x T -> len (s_str x) + 1 <= tbl_size T.
+Proof.
+  induction T as [|y r IH]; [intros []|]. cbn [tbl_size]. intros [->|H]; [lia|]. specialize (IH H). lia.
+Qed.
+
+Lemma fill_header_len e st :
+  (if e_use_strtbl e then tbl_size (final_tbl e st) else match header_pid e with Some p => len p + 1 | None => 0 end)
+  <= len (fill_header e st).
+Proof.
+  unfold fill_header, final_tbl, header_table, header_pid. cbv zeta.
+  destruct ((header_public_id e =? 1) && negb (e_anonymous e)); [destruct (bl_pub_text (e_lang e)) as [p|]|].
+  - destruct (e_use_strtbl e).
+    + destruct (strtbl_add _ _ _) as [[idx t] tl]. rewrite !len_app, strtbl_construct_len. lia.
+    + rewrite !len_app. change (len [0]) with 1. lia.
+  - destruct (e_use_strtbl e); rewrite !len_app, ?strtbl_construct_len; lia.
+  - destruct (e_use_strtbl e); rewrite !len_app, ?strtbl_construct_len; lia.
+Qed.
+
+Lemma final_facts tblb L o tag attrs ch body st' root :
+  let e := enc_env (to_blang L) o in
+  tree_ok3 L 0 (NElt tag attrs ch) = true ->
+  enc_body tblb (to_blang L) o [NElt tag attrs ch] = EOk (body, st') ->
+  abs_node e None (NElt tag attrs ch) (start_state e [NElt tag attrs ch]) = Some ([root], st') ->
+  (match header_pid e with Some p => okb p = true | None => True end) ->
+  (if e_use_strtbl e then tbl_size (final_tbl e st') < 4294967296
+   else match header_pid e with Some p => len p + 1 < 4294967296 | None => True end) ->
+  (forall x, In x (final_tbl e st') -> S.str_at (doc_strtbl e st') (s_off x) = Some (s_str x)) /\
+  (forall x, In x (final_tbl e st') -> S.u32_okb (s_off x) = true) /\
+  (forall x, In x (final_tbl e st') -> ref_str (final_tbl e st') (s_off x) = s_str x) /\
+  (forall x, In x (strtbl st') -> In x (final_tbl e st')) /\
+  S.bytes_okb (doc_strtbl e st') = true /\ Parser.blen (doc_strtbl e st') < 4294967296 /\
+  final_idx e st' < 4294967296 /\
+  (let '(_, t, _) := header_table e st' in tbl_size t < 4294967296) /\
+  (match header_pid e with Some p => len p + 1 < 4294967296 | None => True end).
+Proof.
+  cbv zeta. intros HT EB AN Hpid Hsz. set (e := enc_env (to_blang L) o) in *.
+  destruct (e_use_strtbl e) eqn:HU.
+  - (* string table in use *)
+    pose proof (abs_node_tok e L _ None 0 _ _ _ HT (start_state_ok e L _ 0 HT) AN) as TOK.
+    assert (GEN : forall idx t, (exists x, t = strtbl st' ++ x) -> tbl_ok t = true -> offsets_from 0 t ->
+              tbl_size t < 4294967296 -> (idx = 0 \/ exists x, In x t /\ s_off x = idx) ->
+              (forall x, In x t -> S.str_at (strtbl_construct t) (s_off x) = Some (s_str x)) /\
+              (forall x, In x t -> S.u32_okb (s_off x) = true) /\
+              (forall x, In x t -> ref_str t (s_off x) = s_str x) /\
+              (forall x, In x (strtbl st') -> In x t) /\
+              S.bytes_okb (strtbl_construct t) = true /\ Parser.blen (strtbl_construct t) < 4294967296 /\
+              idx < 4294967296 /\ tbl_size t < 4294967296).
+    { intros idx t [y ->] Tok Hot Hb Hidx.
+      assert (U32 : forall x, In x (strtbl st' ++ y) -> S.u32_okb (s_off x) = true).
+      { intros x Hin. unfold S.u32_okb. apply N.ltb_lt. pose proof (offsets_lt 0 _ x Hot Hin). lia. }
+      split; [|split; [exact U32|split; [|split; [|split; [|split; [|split]]]]]].
+      - intros x Hin. apply entry_resolves; [exact Hot|exact Hin|]. unfold tbl_ok in Tok. rewrite forallb_forall in Tok. now apply Tok.
+      - intros x Hin. exact (ref_str_resolves 0 _ x Hot Hin).
+      - intros x Hin. apply in_or_app. now left.
+      - now apply construct_okb.
+      - change (Parser.blen (strtbl_construct (strtbl st' ++ y))) with (len (strtbl_construct (strtbl st' ++ y))).
+        now rewrite strtbl_construct_len.
+      - destruct Hidx as [->|(x & Hin & <-)]; [lia|]. specialize (U32 x Hin). unfold S.u32_okb in U32. now apply N.ltb_lt in U32.
+      - exact Hb. }
+    unfold final_tbl, final_idx, doc_strtbl in *. unfold header_table in *. rewrite HU in *.
+    destruct (header_pid e) as [p|].
+    + destruct (strtbl_add (strtbl st') (strtbl_len st') p) as [[idx t] tlen] eqn:A.
+      destruct (strtbl_add_ok _ _ _ _ _ _ A) as (Hx & HI).
+      assert (Hbnd : bnd st') by (destruct Hx as [x ->]; unfold bnd; rewrite tbl_size_app in Hsz; lia).
+      pose proof (enc_body_strtbl_exact tblb (to_blang L) o _ body st' EB Hbnd) as [Ho Hl].
+      destruct (HI (conj Ho Hl) Hsz) as [Hot _].
+      destruct (strtbl_add_entry _ _ _ _ _ _ A) as (x0 & Hin0 & Hoff0 & Hstr0).
+      destruct (GEN idx t Hx (strtbl_add_tok _ _ _ _ _ _ TOK Hpid A) Hot Hsz (or_intror (ex_intro _ x0 (conj Hin0 Hoff0))))
+        as (G1 & G2 & G3 & G4 & G5 & G6 & G7 & G8).
+      repeat split; try assumption.
+      pose proof (entry_size t x0 Hin0) as Hes. rewrite Hstr0 in Hes. lia.
+    + pose proof (enc_body_strtbl_exact tblb (to_blang L) o _ body st' EB Hsz) as [Ho Hl].
+      destruct (GEN 0 (strtbl st') (ex_intro _ [] (eq_sym (app_nil_r _))) TOK Ho Hsz (or_introl eq_refl))
+        as (G1 & G2 & G3 & G4 & G5 & G6 & G7 & G8).
+      repeat split; try assumption.
+  - (* no string table: the encoder's table stays empty *)
+    pose proof (abs_node_same e _ HU _ _ _ _ AN) as [S1 S2].
+    unfold start_state in S1, S2. rewrite HU in S1, S2. cbn in S1, S2.
+    unfold final_tbl, final_idx, doc_strtbl in *. unfold header_table in *. rewrite HU in *.
+    destruct (header_pid e) as [p|]; rewrite S1; cbn [tbl_size].
+    + repeat split; try (intros x []); try lia; try exact Hsz.
+      * unfold S.bytes_okb. rewrite forallb_app. unfold okb, S.str_okb in Hpid. apply andb_true_iff in Hpid as [Hp _].
+        unfold S.bytes_okb in Hp. now rewrite Hp.
+      * change (Parser.blen (p ++ [0])) with (len (p ++ [0])). rewrite len_app. exact Hsz.
+    + repeat split; try (intros x []); try lia; try reflexivity.
+Qed.
+
+(* ---- the whole statement, string table on or off ------------------------------------------------------------------------------------ *)
+Theorem strict_decode_of_encoding3 tblb TBL L o tag attrs ch bs :
+  let e := enc_env (to_blang L) o in
+  plain_env e = true -> vals_ok L = true -> l_exts L = None ->
+  tree_ok3 L 0 (NElt tag attrs ch) = true ->
+  find (fun x => l_id x =? l_id L) TBL = Some L ->
+  o_version o < 4 -> header_public_id e < 4294967296 -> header_public_id e <> 0 ->
+  (match header_pid e with Some p => okb p = true | None => True end) ->
+  len bs < 4294967296 ->
+  enc_wbxml tblb (to_blang L) o [NElt tag attrs ch] = EOk bs ->
+  exists d evs, bs = S.serialize d /\ S.strict_doc d = true /\
+            S.denote_with TBL (Some L) d = Some evs /\ S.decode_lang TBL (l_id L) bs = Some evs /\
+            merge_chars evs = merge_chars (doc_events3 L e (o_keep_ws o) (NElt tag attrs ch)).
+Proof.
+  cbv zeta. intros HP HV HX HT HFind Hv Hp1 Hp0 Hpid Hlen E. set (e := enc_env (to_blang L) o) in *.
+  assert (HF : frag2_node e (NElt tag attrs ch) = true) by (apply (tree_ok3_frag2 L e eq_refl _ 0 HT)).
+  destruct (enc_wbxml_serialize2 tblb (to_blang L) o tag attrs ch bs HP HF E) as (st' & root & EB & AN & HS).
+  assert (Hsz : if e_use_strtbl e then tbl_size (final_tbl e st') < 4294967296
+                else match header_pid e with Some p => len p + 1 < 4294967296 | None => True end).
+  { rewrite enc_wbxml_form_local, EB in E. injection E as <-. rewrite len_app in Hlen.
+    pose proof (fill_header_len e st') as HL. fold e in Hlen.
+    destruct (e_use_strtbl e); [lia|]. destruct (header_pid e); [lia|exact I]. }
+  destruct (final_facts tblb L o tag attrs ch _ st' root HT EB AN Hpid Hsz) as (G1 & G2 & G3 & G4 & G5 & G6 & G7 & G8 & G9).
+  pose proof (header_len_ok_holds tblb (to_blang L) o tag attrs ch _ st' root EB AN G8 G9) as HL.
+  pose proof (abs_doc2_strict tblb (to_blang L) o tag attrs ch _ st' root EB AN G8) as Hstrict.
+  destruct (abs_doc3_denotes TBL L o tag attrs ch st' root HP HV HX HT AN G1 G2 G3 G4 Hv Hp1 Hp0 G5 G6 G7) as (evs & Hden & MG).
+  exists (abs_doc2 e st' root), evs. split; [exact (HS HL)|]. split; [exact Hstrict|]. split; [exact Hden|]. split; [|exact MG].
+  rewrite (HS HL). apply Proofs.ParserProofsStrict3.decode_lang_serialize; [|exact Hstrict]. rewrite HFind. exact Hden.
+Qed.
+
+(* C07: the outputs for ANY two option tuples {version} x {string table} x {anonymous} (same white-space option) decode
+   (proved strict decoder, language forced) to event lists that are equal modulo merge_chars *)
+Theorem options_decode_equal3 tblb TBL L v1 v2 s1 s2 a1 a2 k tag attrs ch bs1 bs2 :
+  let o1 := mk_opts v1 s1 k a1 in let o2 := mk_opts v2 s2 k a2 in
+  plain_env (enc_env (to_blang L) o1) = true -> vals_ok L = true -> l_exts L = None ->
+  tree_ok3 L 0 (NElt tag attrs ch) = true ->
+  find (fun x => l_id x =? l_id L) TBL = Some L ->
+  v1 < 4 -> v2 < 4 -> l_pub_num L < 4294967296 -> l_pub_num L <> 0 ->
+  (match l_pub_text L with Some p => okb (P.B p) = true | None => True end) ->
+  len bs1 < 4294967296 -> len bs2 < 4294967296 ->
+  enc_wbxml tblb (to_blang L) o1 [NElt tag attrs ch] = EOk bs1 ->
+  enc_wbxml tblb (to_blang L) o2 [NElt tag attrs ch] = EOk bs2 ->
+  exists ev1 ev2, S.decode_lang TBL (l_id L) bs1 = Some ev1 /\ S.decode_lang TBL (l_id L) bs2 = Some ev2 /\
+                  merge_chars ev1 = merge_chars ev2.
+Proof.
+  cbv zeta. intros HP HV HX HT HFind Hv1 Hv2 Hn1 Hn0 Hpt Hl1 Hl2 E1 E2.
+  assert (PID : forall v s a, header_public_id (enc_env (to_blang L) (mk_opts v s k a)) < 4294967296 /\
+                              header_public_id (enc_env (to_blang L) (mk_opts v s k a)) <> 0 /\
+                              match header_pid (enc_env (to_blang L) (mk_opts v s k a)) with
+                              | Some p => okb p = true | None => True end).
+  { intros v s a. unfold header_public_id, header_pid, header_public_id. cbn [e_anonymous enc_env make_env e_lang to_blang bl_pub_num bl_pub_text o_anonymous].
+    destruct a; cbn [negb andb].
+    - rewrite andb_false_r. split; [lia|]. split; [lia|exact I].
+    - split; [exact Hn1|]. split; [exact Hn0|]. destruct ((l_pub_num L =? 1) && true); [|exact I].
+      destruct (l_pub_text L); [exact Hpt|exact I]. }
+  destruct (PID v1 s1 a1) as (P1 & P2 & P3). destruct (PID v2 s2 a2) as (Q1 & Q2 & Q3).
+  destruct (strict_decode_of_encoding3 tblb TBL L (mk_opts v1 s1 k a1) tag attrs ch bs1 HP HV HX HT HFind Hv1 P1 P2 P3 Hl1 E1)
+    as (d1 & ev1 & _ & _ & _ & D1' & M1).
+  destruct (strict_decode_of_encoding3 tblb TBL L (mk_opts v2 s2 k a2) tag attrs ch bs2 HP HV HX HT HFind Hv2 Q1 Q2 Q3 Hl2 E2)
+    as (d2 & ev2 & _ & _ & _ & D2' & M2).
+  exists ev1, ev2. split; [exact D1'|]. split; [exact D2'|]. rewrite M1, M2. reflexivity.
+Qed.
